@@ -9,7 +9,9 @@ from . import tlc
 
 WORKERS = ["w1", "w2", "w3"]
 CHANNELS = ["c1", "c2"]
-JOBIDS = ["a", "b", "c", "d"]
+# the second id is the empty string: a client-chosen id is any JSON value, and a falsy one must be
+# treated like any other (push tests `jobid is not None`, not truthiness)
+JOBIDS = ["a", "", "c", "d"]
 CLIENTS = ["k1"]
 
 INVARIANTS = {
@@ -114,12 +116,42 @@ def gen_id_reuse(rng, length, *, restart=False, **_):
     return ops
 
 
+def gen_restart_empty(rng, length, **_):
+    """Directed profile: the server is stopped when every job it ever had has been collected
+    (id2job empty, counter > 0) - possibly after an earlier stop that saved a non-empty queue -
+    and started again: nothing of the past may come back and no id may be issued twice."""
+    ids = JOBIDS[:rng.choice([1, 2])]
+    ch = rng.choice(CHANNELS)
+    A = lambda i: {"op": "add", "id": i, "ch": ch, "prio": rng.choice([0, 1]), "tmo": 100, "ttl": 100}
+    ops = []
+    if rng.random() < 0.6:
+        ops += [A(ids[0]), {"op": "restart"}]                # an older save with a live job in it
+    ops += [A(i) for i in ids]
+    for i in ids:
+        if rng.random() < 0.5:
+            ops.append({"op": "kill", "k": "admin", "id": i})
+        else:
+            w = rng.choice(WORKERS)
+            ops += [{"op": "pull", "w": w, "chs": []}, {"op": "runloop"},
+                    {"op": "finish", "w": w, "id": i, "err": rng.choice(["none", "err"])}]
+    for i in ids:
+        ops += [{"op": "drop", "id": i}, {"op": "wait", "c": "k1", "id": i}, {"op": "runloop"}]
+    ops.append({"op": "restart"})
+    tail = [lambda: A(rng.choice(JOBIDS)), lambda: {"op": "pull", "w": rng.choice(WORKERS), "chs": []},
+            lambda: {"op": "runloop"}, lambda: {"op": "restart"}, lambda: {"op": "stats"}]
+    while len(ops) < length:
+        ops.append(rng.choice(tail)())
+    return ops
+
+
 def gen_sequence(rng, length, *, restart=False, wait=False, extras=False, reconnect=True):
     r0 = rng.random()
     if r0 < 0.3:
         return gen_priority_stress(rng, length, restart=restart)
     if r0 < 0.4 and wait:
         return gen_id_reuse(rng, length, restart=restart)
+    if r0 < 0.46 and wait and restart:
+        return gen_restart_empty(rng, length)
     """A legal operation sequence (legality judged on a light shadow of connection states; the
     shadow never decides a verdict - an illegal op would merely be rejected as machinery error)."""
     ops = []
@@ -195,8 +227,11 @@ def record(ops, policy_seed=0):
     waiting, connect on an open connection, a 3rd setinfo) are skipped."""
     from . import qsdriver
     rng = random.Random(policy_seed)
+    # every other recording restarts through the server's own save / load (Main.savedb / loaddb on a
+    # data directory that lives as long as the recording), the others through pickle in memory
     d = qsdriver.Driver(workers=WORKERS, clients=CLIENTS,
-                        policy=lambda serial, workers: workers[rng.randrange(len(workers))])
+                        policy=lambda serial, workers: workers[rng.randrange(len(workers))],
+                        restart_via_file=(policy_seed % 2 == 0))
     executed = []
     batch = []
     inbatch = set()
